@@ -390,4 +390,5 @@ def run(ck):
     ck.ob('DT-domain', mod.loc(mk), ok, 'region domain: two atoms share a domain iff SOME region contains both input residue numbers (bounds inclusive, either order); '
           'every region is tried', key='DT-domain|same_region')
     shared.truthy_zero(ck, [RB])
+    shared.runs_every_molecule(ck, 'vermouth/processors/apply_rubber_band.py', 'ApplyRubberBand', 'MPT-every-molecule')
     ck.assume('matrix index arithmetic of numpy and the numeric values of the decay are not decided beyond the sample grid')
